@@ -35,6 +35,8 @@ SPECS = {
     "C12": dict(units=[machine("TestC12", 560, 10000, steps=34)], floor=0.30, rule=None, assumptions=MACHINE_ASSUME),
     "C08": dict(units=[machine("TestC08", 400, 6000, steps=34)], floor=0.40, rule=None, assumptions=MACHINE_ASSUME),
     "C07": dict(units=[machine("TestC07", 640, 10000, steps=30)], floor=0.50, rule=None, assumptions=MACHINE_ASSUME),
+    "C09": dict(units=[machine("TestC09", 320, 5000, steps=36)], floor=0.50, rule=None, assumptions=MACHINE_ASSUME),
+    "C10": dict(units=[machine("TestC10", 400, 6000, steps=36)], floor=0.40, rule=None, assumptions=MACHINE_ASSUME),
     "C15": dict(units=[machine("TestC15", 640, 12000, steps=30)], floor=0.50, rule=None, assumptions=MACHINE_ASSUME),
 }
 
